@@ -210,7 +210,28 @@ func classifyTarget(P *Prog, fn *ssa.Function, at ssa.Instruction, target ssa.Va
 	if callersHoldLock(P, fn) {
 		return "every call site of " + fn.Name() + " holds a sync.Mutex / RWMutex write lock"
 	}
+	if calledOnlyUnderOnce(P, fn) {
+		return "every call site of " + fn.Name() + " is inside a closure run by sync.Once.Do"
+	}
 	return classifyValue(P, target, 0)
+}
+
+// calledOnlyUnderOnce: fn is an unexported function / method that is only called (plain calls) from closures run by
+// sync.Once.Do - the helper into which the body of such a closure was moved.
+func calledOnlyUnderOnce(P *Prog, fn *ssa.Function) bool {
+	if fn.Parent() != nil || fn.Object() == nil || fn.Object().Exported() {
+		return false
+	}
+	sites := PkgCallers(fn)
+	if len(sites) == 0 {
+		return false
+	}
+	for _, s := range sites {
+		if _, isCall := s.(*ssa.Call); !isCall || !onceClosure(s.Parent()) {
+			return false
+		}
+	}
+	return true
 }
 
 // onceClosure: fn is a closure used only as the argument of (*sync.Once).Do.
@@ -739,7 +760,10 @@ func c11Rest(c *Ctx) {
 					fa, isFA := st.Addr.(*ssa.FieldAddr)
 					if st == nil || !isFA {
 						okStore = false
-					} else if fv, _ := FieldOf(fa); fv == nil || fv.Name() != "gun" {
+					} else if fv, base := FieldOf(fa); fv == nil {
+						okStore = false
+					} else if _, tn := NamedOf(base.Type()); tn != "instance" {
+						// (the gun field, or another field of the same instance: the gun seen as io.Closer, say)
 						okStore = false
 					}
 				case u.Kind == "cmp", strings.HasPrefix(u.Kind, "recv:"), u.Kind == "typeassert":
